@@ -63,6 +63,10 @@ def write_ops(counts=False):
         st.builds(lambda a, s: {"op": "rename", "axis": a, "suffix": s}, AX,
                   st.sampled_from(["_r", "-renamed-longer", "x"])),
         st.just({"op": "transpose"}),
+        # the table is written out and loaded again: most tables in real
+        # programs were loaded from a file, not built in memory
+        st.builds(lambda v: {"op": "reload", "via": v},
+                  st.sampled_from(["json", "hdf5"])),
     ]
     if counts:
         base.append(st.builds(
@@ -228,6 +232,34 @@ def apply_op(t, op):
                             axis=op["axis"], inplace=True)
     if name == "transpose":
         return t.transpose()
+    if name == "reload":
+        # (a loaded table keeps only the text of group metadata and cannot
+        # be written to HDF5 again: not reloaded)
+        if t.is_empty() or t.group_metadata("sample") or \
+                t.group_metadata("observation"):
+            raise _Skip()
+        if op["via"] == "json":
+            import io
+            from biom.parse import parse_biom_table
+            return parse_biom_table(io.StringIO(t.to_json("vf")))
+        # HDF5 holds per-category-homogeneous metadata only; reload what is
+        # trivially inside that domain: no metadata, or the same plain-text
+        # categories on every ID
+        for axis in ("sample", "observation"):
+            md = t.metadata(axis=axis)
+            if md is None:
+                continue
+            keys = set(md[0].keys()) if md[0] else None
+            for m in md:
+                if not m or set(m.keys()) != keys or not all(
+                        isinstance(k, str) and k and isinstance(v, str)
+                        for k, v in m.items()):
+                    raise _Skip()
+        from biom import Table
+        from .h5spec import mem_file
+        with mem_file() as f:
+            t.to_hdf5(f, "vf")
+            return Table.from_hdf5(f)
     if name == "subsample":
         v = np.asarray(t.matrix_data.tocoo().data)
         if v.size and (np.any(v < 0) or np.any(v != np.floor(v))):
